@@ -14,6 +14,10 @@ import (
 	<%= contentOf("buttons", {"label": "Click me"}) %>
 */
 func ContentOf(name string, data hctx.Map, help hctx.HelperContext) (template.HTML, error) {
+	if help == nil {
+		return template.HTML(""), errors.New("missing helper context for contentOf: " + name)
+	}
+
 	fn, ok := help.Value("contentFor:" + name).(func(data hctx.Map) (template.HTML, error))
 	if !ok {
 		if !help.HasBlock() {
